@@ -1892,7 +1892,7 @@ fn main() {
     vh::quiet_panics();
     let run = Run::from_args("C38", "exploration");
     let selftest = std::env::var("VERIF_SELFTEST").unwrap_or_default();
-    run.set_rule("case = sequence of 1..12 operations in one process on a fresh thread (process-wide state inherited from all earlier cases): Builder::sign of a synthesised asset (16 container kinds x data/BMFF hash | compressed manifest + box hash | BMFF Merkle 1 KB, incl. MP4 instances with two mdat boxes; 7 algorithms; claim v1/v2), embeddable BMFF flow (placeholder, hash_bmff_mdat_bytes on 1-2 mdat boxes, sign_embeddable), context read with one of 3 settings (once or twice), deprecated Reader::from_stream, add_ingredient_from_stream of a kept asset + sign, update manifest on a kept asset, to_archive + with_archive/from_archive + sign, 6 deprecated thread-local setters (Settings::from_toml / from_string), 10 failing operations (garbage, wrong format, unsupported format, truncated, tampered, bad settings text, bad definition, missing intent); plus a probe signing before / after the sequence and in a child process. Non-trivial = a context-based operation follows a thread-local setter or a failing operation, or an asset with a Merkle tree over two mdat boxes is produced / re-read.");
+    run.set_rule("case = sequence of 1..12 operations in one process on a fresh thread (process-wide state inherited from all earlier cases): Builder::sign of a synthesised asset (16 container kinds x data/BMFF hash | compressed manifest + box hash | BMFF Merkle 1 KB, incl. MP4 instances with two mdat boxes; 7 algorithms; claim v1/v2), embeddable BMFF flow (placeholder, hash_bmff_mdat_bytes on 1-2 mdat boxes, sign_embeddable), context read with one of 3 settings (once or twice), deprecated Reader::from_stream, add_ingredient_from_stream of a kept asset + sign, update manifest on a kept asset, to_archive + with_archive/from_archive + sign, 6 deprecated thread-local setters (Settings::from_toml / from_string), 10 failing operations (garbage, wrong format, unsupported format, truncated, tampered, bad settings text, bad definition, missing intent); plus a probe signing before / after the sequence and in a child process. Non-trivial = a context-based operation follows a thread-local setter or a failing operation, or an asset with a Merkle tree over two mdat boxes is produced / re-read. Streams trust_histories / legacy_histories: 2-5 (2-6) operations on one fresh thread with per-operation trust settings (resp. accepted and rejected deprecated thread-local settings loads followed by deprecated reads / signs), each operation compared with the same operation on a pristine thread; non-trivial = consecutive operations with different trust settings (resp. a rejected load followed by at least one further operation).");
     run.assume("report_same_bytes removes only the validation time; report_cross_run blanks URNs, instance ids, times, hashes, signatures (shared normaliser vh::sdk)");
     run.assume("the child process is this binary re-executed (/proc/self/exe --child job.json) with the settings passed explicitly; it runs the same read helper on the same bytes");
     run.assume("assets with a BMFF Merkle tree over two mdat boxes are judged only by oracle (c) (48 reads, all verdicts equal); they are excluded from the other comparisons by their class");
